@@ -492,6 +492,13 @@ Eval(e, A, sc, calls) ==
                          st  == Exec(def.body, [WithSelf(A, A.chain[j]) EXCEPT !.lvl = j],
                                      [St0(sc) EXCEPT !.calls = calls])
                      IN IF ~st.ok THEN RErr(st.err, st.calls) ELSE ROk([t |-> "safe", s |-> st.out], st.calls)
+           ELSE IF e.f \in {"max", "min"} THEN
+                LET as == EvalSeq(e.args, A, sc, calls) IN
+                IF ~as.ok THEN as
+                ELSE IF Len(as.v.xs) >= 1 /\ (\A i \in 1..Len(as.v.xs) : as.v.xs[i].t = "int")
+                     THEN LET vals == {as.v.xs[i].i : i \in 1..Len(as.v.xs)} IN
+                          ROk(VI(IF e.f = "max" THEN CHOOSE m \in vals : \A x \in vals : x <= m ELSE CHOOSE m \in vals : \A x \in vals : m <= x), as.calls)
+                     ELSE RErr("frag", as.calls)
            ELSE IF e.f = "range" THEN
                 LET as == EvalSeq(e.args, A, sc, calls) IN
                 IF ~as.ok THEN as
